@@ -129,7 +129,10 @@ def sanitize_table_prefix(app_id: str) -> str:
     :return: A string safe for use in SQLite table names
     """
     sanitized = re.sub(r"[^a-zA-Z0-9_]", "_", app_id)
-    if sanitized and sanitized[0].isdigit():
+    # SQLite reserves every object name starting with "sqlite_" (any letter case)
+    if sanitized and (
+        sanitized[0].isdigit() or f"{sanitized}_".lower().startswith("sqlite_")
+    ):
         sanitized = f"_{sanitized}"
     sanitized = sanitized or "_default"
     hash_suffix = hashlib.sha256(app_id.encode()).hexdigest()[:8]
